@@ -521,6 +521,10 @@ func (ex *Exec) execRange(s *ast.RangeStmt, st *State, label string) *Flow {
 			unsupported("range over %s at %s", t, ex.pos(s.Pos()))
 		}
 	case *types.Map:
+		if ex.rangeMapCopy(s, st) {
+			ex.popScope(st)
+			return &Flow{Normal: st}
+		}
 		unsupported("range over map at %s (iteration order is not modelled)", ex.pos(s.Pos()))
 	default:
 		unsupported("range over %s at %s", xt, ex.pos(s.Pos()))
